@@ -15,6 +15,7 @@ import (
 	"runtime/debug"
 	"sort"
 	"strings"
+	"sync"
 	"testing"
 	"testing/synctest"
 	"time"
@@ -94,6 +95,9 @@ type runCtx struct {
 	sim       *zsim.Sim
 	outcome   string
 	state     string
+
+	passThrough bool       // auxiliary -race mode: no scheduling, yields are Gosched
+	mu          sync.Mutex // counters/violations may be touched from several goroutines in that mode
 }
 
 func (c *runCtx) violate(class, format string, a ...any) {
@@ -101,9 +105,15 @@ func (c *runCtx) violate(class, format string, a ...any) {
 	if len(d) > 1500 {
 		d = d[:1500] + "…"
 	}
+	c.mu.Lock()
 	c.viol = append(c.viol, violation{class, d})
+	c.mu.Unlock()
 }
-func (c *runCtx) count(k string, n int) { c.counters[k] += n }
+func (c *runCtx) count(k string, n int) {
+	c.mu.Lock()
+	c.counters[k] += n
+	c.mu.Unlock()
+}
 func (c *runCtx) param(k string, def int) int {
 	if v, ok := c.params[k]; ok {
 		return v
@@ -132,6 +142,10 @@ func (c *runCtx) simConfig() zsim.Config {
 	}
 	if c.replay != nil && c.replay.Tape != nil {
 		cfg.Replay = c.replay.Tape
+	}
+	if c.passThrough {
+		cfg.PassThrough = true
+		cfg.Replay = nil
 	}
 	if v := os.Getenv("VERIF_TRACECAP"); v != "" {
 		fmt.Sscan(v, &cfg.TraceCap)
